@@ -2,7 +2,7 @@
    General proofs from the peel lemmas of C15 and the conversions of C14. *)
 From Coq Require Import String.
 From CKC Require Import Base.Prelude Base.Reflect Spec.Layout Model.Card Model.Hands Model.Binary.
-From CKC Require Import Proofs.CardBase Proofs.ValidFacts Proofs.C14 Proofs.C15.
+From CKC Require Import Proofs.CardBase Proofs.ValidFacts Proofs.BcCards Proofs.BcPeel.
 From CKC Require Import Gen.Consts Gen.Decks Gen.Enums.
 Open Scope N_scope.
 
